@@ -87,6 +87,19 @@ def joinSets {α : Type} (parents : Nat) (rt : α → Int) (arrivals : List (Nat
 def fieldMap (assignments : List (String × String)) : List (String × String) :=
   assignments.foldl (fun a kv => putField kv.1 kv.2 a) []
 
+/-- The value an outer join puts into the fields of a missing parent (`none`: inner join). -/
+def fillToken : Fill → Option String
+  | .none => none
+  | .null => some "nil"
+  | .num tok => some tok
+
+/-- The field assignments parent `vp.2` (its `as()` name) contributes: its own fields, prefixed – or, when it
+is missing, the fill value under the field names of the first present value. -/
+def contribution (cfg : JCfg) (first : JMsg) (vp : Option JMsg × String) : List (String × String) :=
+  match vp.1 with
+  | some p => p.fields.map (fun kv => (vp.2 ++ cfg.delim ++ kv.1, kv.2))
+  | none => first.fields.map (fun kv => (vp.2 ++ cfg.delim ++ kv.1, (fillToken cfg.fill).getD ""))
+
 /-- The joined point of one set, or nothing: an inner join (`fill none`) yields a point only when every
 parent is present; an outer join fills the fields of a missing parent (named after the fields of the first
 present value) with null / the number. Fields are prefixed with the parent's `as()` name and the
@@ -95,19 +108,10 @@ def joinedPoint (cfg : JCfg) (s : JSet JMsg) : Option JOut :=
   match s.values.filterMap id with
   | [] => none
   | first :: _ =>
-    let complete := s.values.all Option.isSome
-    let fillTok : Option String := match cfg.fill with
-      | .none => none
-      | .null => some "nil"
-      | .num tok => some tok
-    if !complete && fillTok.isNone then none else
-    let contrib : Option JMsg × String → List (String × String) := fun vp =>
-      match vp.1 with
-      | some p => p.fields.map (fun kv => (vp.2 ++ cfg.delim ++ kv.1, kv.2))
-      | none => first.fields.map (fun kv => (vp.2 ++ cfg.delim ++ kv.1, fillTok.getD ""))
+    if !s.values.all Option.isSome && (fillToken cfg.fill).isNone then none else
     some { name := if cfg.sname = "" then first.name else cfg.sname
            time := s.time, byName := first.byName, dims := first.dims, tags := groupTags first
-           fields := fieldMap ((s.values.zip cfg.names).flatMap contrib) }
+           fields := fieldMap ((s.values.zip cfg.names).flatMap (contribution cfg first)) }
 
 /-- The groups that occur, in order of first occurrence. -/
 def distinctS : List String → List String
